@@ -159,6 +159,16 @@ DESC = {
 "C15n": "resolve answers '#'-references straight from store[base] (KeyError when the fetched document was not kept)", "C16n": "validates() removes the metaschema ids of the class that held the version name before",
 "C17n": "ErrorTree._instance default is a fresh Unset sentinel, __getitem__ still compares with the module's", "C18n": "process-wide memo of URLs urllib could not fetch, consulted before handler dispatch",
 "C19n": "_Outputter.load uses raw_decode (trailing garbage after a JSON value is accepted)", "C20n": "validator_for requires a dict, not any Mapping, to look for $schema",
+"C01o": "additionalProperties dispatches on the truthiness of its value ({} is taken for false)", "C02o": "resolve_remote returns the document only under `if self.cache_remote:` (None otherwise)",
+"C03o": "extras_msg sorts the extras (third independent seeding of this slip)", "C04o": "module validate() builds the validator before it checks the schema (constructor errors instead of SchemaError)",
+"C05o": "required() skips a missing member whose sibling `properties` entry declares a default", "C06o": "draft-3 schema-form dependencies descend without schema_path=property",
+"C07o": "draft-3 dependencies rewrites the string shorthand to a list IN the schema", "C08o": "equal(): element-wise Sequence comparison guarded with `and` (string vs array of characters; second seeding)",
+"C09o": "multipleOf's overflow fallback takes Fraction(str(divisor)) instead of Fraction(divisor)", "C10o": "resolve_fragment tries each raw (still escaped) token as a literal member name first",
+"C11o": "drafts 6/7 `items` remembers scalar items that passed in a set and skips equal later ones (true/1)", "C12o": "FormatChecker.check treats a None result as conforming",
+"C13o": "conforms() calls the function directly and returns `result and True` (None for the date checker's failed match)", "C14o": "Validator.validate keeps the error iterator in a local (scopes stay pushed while the exception lives)",
+"C15o": "resolving() resolves and pushes inside the try whose finally pops (a failed resolution pops a scope it never pushed)", "C16o": "validates() appends the metaschema id's scheme to urllib.parse.uses_relative/uses_netloc",
+"C17o": "draft-3 schema-form dependencies descend with path=property as well", "C18o": "URIDict.items() hands out a cached snapshot that overwriting an existing key does not drop",
+"C19o": "cli.main returns run()'s status instead of sys.exit()ing with it (python -m jsonschema always exits 0)", "C20o": "create() remembers the metaschema id; validates() registers under the remembered one",
 "C19m": "cli.run without --base-uri builds the resolver without the class's id_of (same slip as C02m, seeded independently)", "C20m": "create() registers only for a truthy version (version='' is silently not registered)",
 }
 MISSED = set("C03 C07 C12 C15 C16 C20 C02b C06b C07b C10b C11b C14b C19b C01c C02c C06c C10c C12c C15c C16c C18c C19c C20c "
@@ -172,7 +182,8 @@ MISSED = set("C03 C07 C12 C15 C16 C20 C02b C06b C07b C10b C11b C14b C19b C01c C0
              "C02k C04k C08k C10k C11k C12k C14k C17k C18k C19k C20k "
              "C01l C04l C06l C07l C08l C10l C11l C16l C17l C18l C19l C20l "
              "C02m C03m C04m C05m C08m C10m C12m C14m C16m C18m C19m C20m "
-             "C01n C02n C04n C10n C11n C12n C15n C16n C18n C19n C20n".split())
+             "C01n C02n C04n C10n C11n C12n C15n C16n C18n C19n C20n "
+             "C02o C05o C10o C14o C16o C18o C20o".split())
 rows = []
 for name in sorted(os.listdir(os.path.join(HERE, "seeded"))):
     mp = os.path.join(HERE, "seeded", name, "meta.json")
